@@ -126,7 +126,7 @@ func c19Tuples() []c19Tuple {
 	}
 	schemes := []string{"ax25", "ardop", "telnet", "serial-tnc", "ax25+agwpe", "pactor"}
 	users := []ui{{"", nil}, {"la5nta", nil}, {"la5nta", sp("pw")}, {"u", sp("p@ss/w")}, {"LA5NTA-7", sp("")}}
-	hosts := []string{"", "axport", "0", "localhost:8000", "[::1]:8772"}
+	hosts := []string{"", "axport", "0", "localhost:8000", "[::1]:8772", "[::1]"}
 	dset := []string{"LA1B-10", "ld5sk", "W1AW"}
 	var digis [][]string
 	digis = append(digis, nil)
